@@ -2,6 +2,7 @@ package rules
 
 import (
 	"fmt"
+	"os"
 	"go/token"
 	"strings"
 
@@ -13,6 +14,7 @@ import (
 func init() { register("C04", checkC04) }
 
 func checkC04(P *core.Program, R *core.Report) {
+	defer checkMsgForward(P, R, "C04-msg-forward", func(k string) bool { return os.Getenv("ELYSLINT_MSGFWD_ALL") != "" || strings.HasPrefix(k, "x/amm/") || strings.HasPrefix(k, "x/tradeshield/") })
 	R.Explanation = "Structural conditions of 'settles as requested or changes nothing', decided on every path: (1) the message handlers' dry run executes RouteExactAmount* on a CacheContext whose write function is never called, and the request is enqueued only under err == nil of the dry run; " +
 		"(2) in ExecuteSwapRequests every ApplySwapRequest runs on a forked context, each write_i() is reached only under err_i == nil and only on paths that also delete the same request msg_i, and every trip round the batch loop deletes at least one request (so the queue drains and a request is applied at most once); " +
 		"(3) all swap-request accessors take their store from ctx.TransientStore(k.transientStoreKey) (reset at commit: nothing lingers into later blocks); (4) limits: InternalSwapExactAmountIn reaches UpdatePoolForSwap only with ¬(out < tokenOutMinAmount) and InternalSwapExactAmountOut only with ¬(in > tokenInMaxAmount); the route functions hand the user's limit to the last (exact-in) / first (exact-out) hop by identity; " +
@@ -421,6 +423,9 @@ func phiSelectsOnLastHop(ff *core.FuncFacts, v ssa.Value, want ssa.Value) bool {
 		}
 		pred := phi.Block().Preds[i]
 		for _, a := range edgeOrBlockAtoms(ff, pred, phi.Block()) {
+			if os.Getenv("ELYSLINT_POLY_DEBUG") != "" {
+				fmt.Fprintf(os.Stderr, "c04 lasthop edge b%d: %s\n", pred.Index, ff.AtomString(a))
+			}
 			if a.Rel == core.EQ && a.B != nil && (isLastIndexExpr(ff, a.A) || isLastIndexExpr(ff, a.B)) {
 				return true
 			}
